@@ -81,7 +81,8 @@ def menu():
     m.append(("verb_get", 26, [(t, Pt, cstr(t.encode(), 16)) for t in ("POST", "PUT", 'G"T')]))
     m.append(("verb_post", 27, [(t, Pt, cstr(t.encode(), 16)) for t in ("GET", "X\\")]))
     m.append(("get", 12, [(f"prog{i}", Pt, P.transform_program(p).ljust(512, b"\x00")) for i, p in enumerate(progs_get()) if p is not None]))
-    m.append(("post", 13, [(f"prog{i}", Pt, P.transform_program(p).ljust(512, b"\x00")) for i, p in enumerate(progs_post()) if p is not None]))
+    m.append(("post", 13, [(f"prog{i}", Pt, P.transform_program(p).ljust(512, b"\x00")) for i, p in enumerate(progs_post()) if p is not None]
+              + [("same-bytes-as-get", Pt, P.transform_program(RC.DEFAULT_GET).ljust(512, b"\x00"))]))
     m.append(("recover", 11, [(f"prog{i}", Pt, P.recover_program(p).ljust(256, b"\x00")) for i, p in enumerate(progs_recover()) if p is not None] + [("absent", None, None)]))
     m.append(("spawnto_x86", 29, [(t.decode("latin-1"), Pt, cstr(t, 64)) for t in TEXTS]))
     m.append(("spawnto_x64", 30, [(t.decode("latin-1"), Pt, cstr(t, 64)) for t in TEXTS[:3] + TEXTS[7:8]]))
@@ -107,7 +108,7 @@ def menu():
     m.append(("bof_reuse", 48, [(v, Sh, struct.pack(">H", v)) for v in (0, 1)]))
     m.append(("data_required", 77, [(v, Sh, struct.pack(">H", v)) for v in (0, 1)]))
     A = P.BEACON_GATE_APIS
-    vectors = [[], A, list(P.BG_COMMS), list(P.BG_CORE), list(P.BG_CLEANUP), list(P.BG_COMMS | P.BG_CLEANUP)] + [[a] for a in A] + [["VirtualProtectEx", "ExitThread"], list(P.BG_CORE - {"VirtualProtectEx"}), list(P.BG_COMMS) + ["VirtualAlloc"]]
+    vectors = [[], A, list(P.BG_COMMS), list(P.BG_CORE), list(P.BG_CLEANUP), list(P.BG_COMMS | P.BG_CLEANUP), list(P.BG_COMMS | P.BG_CORE), list(P.BG_CORE | P.BG_CLEANUP), [a for a in A if a != "InternetOpenA"]] + [[a] for a in A] + [["VirtualProtectEx", "ExitThread"], list(P.BG_CORE - {"VirtualProtectEx"}), list(P.BG_COMMS) + ["VirtualAlloc"]]
     m.append(("beacon_gate", 78, [("+".join(sorted(v))[:40] or "none", Pt, bg(v)) for v in vectors]))
     m.append(("tcp_frame", 58, [(f.hex(), Pt, P.pivot_frame(f, 128)) for f in (b"", b"\x80", b'a"\\', b"\x00\x01")]))
     m.append(("smb_frame", 57, [(f.hex(), Pt, P.pivot_frame(f, 128)) for f in (b"", b"\x80\x00\xff")]))
